@@ -137,32 +137,44 @@ ADD_PROOF = """
       have e2 : FieldElement.beq b.z 1 = decide (b.z = {one}) := rfl
       rw [e1, e2]
       cases h1 : decide (a.z = {one}) <;> cases h2 : decide (b.z = {one})
-      · simp only [G.add_ff, FieldElement.is_zero, FieldElement.squared, FieldElement.double]
-        repeat' split
-        all_goals (try simp_all)
-        all_goals (try simp only [Fq2.squared_eq_mul, Fq2.double_eq, Fq.squared_eq_mul', Fq.double_eq', G.mk.injEq])
-        all_goals (try (repeat' apply And.intro))
-        all_goals (try trivial)
-        all_goals (try ring1)
-      · simp only [G.add_ft, FieldElement.is_zero, FieldElement.squared, FieldElement.double]
-        repeat' split
-        all_goals (try simp_all)
-        all_goals (try simp only [Fq2.squared_eq_mul, Fq2.double_eq, Fq.squared_eq_mul', Fq.double_eq', G.mk.injEq])
-        all_goals (try (repeat' apply And.intro))
-        all_goals (try trivial)
-        all_goals (try ring1)
+      · first
+        | (bounded 200 => (
+            simp only [G.add_ff, FieldElement.is_zero, FieldElement.squared, FieldElement.double]
+            repeat' split
+            all_goals (try simp_all)
+            all_goals (try simp only [Fq2.squared_eq_mul, Fq2.double_eq, Fq.squared_eq_mul', Fq.double_eq', G.mk.injEq])
+            all_goals (try (repeat' apply And.intro))
+            all_goals (try trivial)
+            all_goals (try ring1)
+            done))
+        | (simp only [G.add_ff]; g_close)
+      · first
+        | (bounded 200 => (
+            simp only [G.add_ft, FieldElement.is_zero, FieldElement.squared, FieldElement.double]
+            repeat' split
+            all_goals (try simp_all)
+            all_goals (try simp only [Fq2.squared_eq_mul, Fq2.double_eq, Fq.squared_eq_mul', Fq.double_eq', G.mk.injEq])
+            all_goals (try (repeat' apply And.intro))
+            all_goals (try trivial)
+            all_goals (try ring1)
+            done))
+        | (simp only [G.add_ft]; g_close)
       · -- (true, false): `other + self` re-enters `add` and takes the (false, true) arm
         show G.add b a = G.add_ft b a
         unfold G.add
         have e3 : FieldElement.beq b.z 1 = decide (b.z = {one}) := rfl
         simp only [hb, ha, Bool.false_eq_true, if_false, e1, e3, h1, h2]
-      · simp only [G.add_tt, FieldElement.is_zero, FieldElement.squared, FieldElement.double]
-        repeat' split
-        all_goals (try simp_all)
-        all_goals (try simp only [Fq2.squared_eq_mul, Fq2.double_eq, Fq.squared_eq_mul', Fq.double_eq', G.mk.injEq])
-        all_goals (try (repeat' apply And.intro))
-        all_goals (try trivial)
-        all_goals (try ring1)
+      · first
+        | (bounded 200 => (
+            simp only [G.add_tt, FieldElement.is_zero, FieldElement.squared, FieldElement.double]
+            repeat' split
+            all_goals (try simp_all)
+            all_goals (try simp only [Fq2.squared_eq_mul, Fq2.double_eq, Fq.squared_eq_mul', Fq.double_eq', G.mk.injEq])
+            all_goals (try (repeat' apply And.intro))
+            all_goals (try trivial)
+            all_goals (try ring1)
+            done))
+        | (simp only [G.add_tt]; g_close)
     · simp
   · simp"""
 
@@ -224,20 +236,25 @@ def lib_proofs(ns):
   | (by_cases h : bs.length = {2*el}
      · simp only [h, decide_true, Bool.not_true, Bool.false_eq_true, if_false, ne_eq, not_true_eq_false]
        cases {fromS} (bs.take {el}) <;> cases {fromS} (bs.drop {el}) <;> rfl
-     · simp [h])'''
+     · simp [h])
+  | lib_dtree'''
     P['from_uncompressed'] = f'''
   funext bs
   unfold Sm9.Gen.{ns}.from_uncompressed Sm9.Api.{g}FromUncompressed
   simp only [getD0]
-  by_cases h : bs.length = {2*el+1}
-  · have := head_ne_iff bs 4 (by omega)
-    grind
-  · grind'''
+  first
+  | (by_cases h : bs.length = {2*el+1}
+     · have := head_ne_iff bs 4 (by omega)
+       grind
+     · grind)
+  | lib_dtree'''
     P['from_compressed'] = f'''
   funext bs
   unfold Sm9.Gen.{ns}.from_compressed Sm9.Api.{g}FromCompressed
   simp only [liftNew_eq, and_one_eq, getD0, not_decide_eq_bne, decide_eq_beq', bool_bne_comm, bool_beq_comm]
-  grind'''
+  first
+  | grind
+  | lib_dtree'''
     P['to_slice'] = f'''
   funext p
   unfold Sm9.Gen.{ns}.to_slice Sm9.Api.{g}ToSlice
@@ -389,7 +406,10 @@ def main(gen_dir, exclude=()):
             if mm:
                 default = f'equiv_unf Sm9.Gen.{ns}.{fnl} {mm.group(1)}'
         tac = SPECIAL.get(key, default)
-        L.append(f'theorem {nm} : @Sm9.Gen.{ns}.{fnl} = {m} := by {tac}')
+        # tactics that try several alternatives, each with its own budget (`bounded`, EquivTactics.lean): the theorem as a whole
+        # gets more (the budget of a failed alternative still counts against the enclosing declaration)
+        pre = 'set_option maxHeartbeats 1000000 in\n' if any(k in tac for k in ('bounded', 'g_tac', 'to_affine_equiv', 'equiv_unf')) else ''
+        L.append(f'{pre}theorem {nm} : @Sm9.Gen.{ns}.{fnl} = {m} := by {tac}')
         names.append(nm)
         if key in ('G1Params.coeff_b', 'G2Params.coeff_b') and f'{nm}_value' not in exclude:
             # SPEC: the curve is y² = x³ + 5 (G2: the twist coefficient 5·u) — holds whatever constant the source and hence Consts.lean carry
